@@ -3,6 +3,7 @@ import PV.Model.Utf8
 import PV.Spec.Utf8
 import PV.Spec.Utf8Dec
 import PV.Model.Base64
+import PV.Model.Docenc
 import PV.Spec.Base64
 /-
 One function per unit: `List String` (the operation's arguments) to one output line.
@@ -44,13 +45,34 @@ def b64 (op : String) (args : List String) : String :=
     match unhex h with
     | some bs => match PV.Base64.decode bs with
       | .ok o => s!"ok {hex o}"
-      | .error .notB64 => "ERR:notb64"
-      | .error .length => "ERR:length"
+      | .notB64 => "ERR:notb64"
+      | .length => "ERR:length"
     | none => "bad-op"
   | "spec.enc", [h] =>
     match unhex h with
     | some bs => s!"ok {hex (PV.Spec.Base64.rfc4648 bs)}"
     | none => "bad-op"
+  | "spec.judgedec", [h, r] =>   -- r = "ERR" or the hex of the decoder's answer
+    match unhex h, (if r == "ERR" then some none else (unhex r).map some) with
+    | some bs, some res => if PV.Spec.Base64.judgeDecode bs res then "pass" else "fail"
+    | _, _ => "bad-op"
+  | _, _ => "bad-op"
+
+def natList (s : String) : Option (List Nat) :=
+  if s == "-" then some [] else (s.splitOn ",").mapM String.toNat?
+
+def docenc (op : String) (args : List String) : String :=
+  match op, args with
+  | "enc", [nul, ind, h] =>
+    match unhex h, natList ind with
+    | some bs, some ind => s!"ok {hex (PV.Docenc.encode (nul == "1") ind bs)}"
+    | _, _ => "bad-op"
+  | "dec", [nul, ind, h] =>
+    match unhex h, natList ind with
+    | some bs, some ind => match PV.Docenc.decode (nul == "1") ind bs with
+      | some o => s!"ok {hex o}"
+      | none => "ERR:abort"
+    | _, _ => "bad-op"
   | _, _ => "bad-op"
 
 def dispatch (line : String) : String :=
@@ -61,6 +83,7 @@ def dispatch (line : String) : String :=
     | ["utf8", op] => utf8 op args
     | ["utf8", "spec", op] => utf8 ("spec." ++ op) args
     | ["b64", op] => b64 op args
+    | ["docenc", op] => docenc op args
     | ["b64", "spec", op] => b64 ("spec." ++ op) args
     | _ => "bad-op"
 
